@@ -79,12 +79,19 @@ impl W {
 
     /// market increase order: `collateral` of the side's collateral token, `size` in USD (unit 10^20)
     pub fn create_increase(&self, db: &mut Db, m: &MarketKeys, owner: Pubkey, nonce: [u8; 32], side: Side, collateral: u64, size: u128) -> std::result::Result<(), TxError> {
+        self.create_increase_with(db, m, owner, nonce, side, collateral, size, None)
+    }
+
+    /// as `create_increase`, with an acceptable price (an unreachable one makes the execution fail softly)
+    #[allow(clippy::too_many_arguments)]
+    pub fn create_increase_with(&self, db: &mut Db, m: &MarketKeys, owner: Pubkey, nonce: [u8; 32], side: Side, collateral: u64, size: u128, acceptable_price: Option<u128>) -> std::result::Result<(), TxError> {
         let order = self.order_pda(&owner, &nonce);
         let ctoken = if side.collateral_long { m.long } else { m.short };
         for mint in [m.long, m.short] {
             self.ensure_ata(db, &order, &mint);
         }
-        let params = Self::order_params(OrderKind::MarketIncrease, side, collateral, size);
+        let mut params = Self::order_params(OrderKind::MarketIncrease, side, collateral, size);
+        params.acceptable_price = acceptable_price;
         let accounts = gmsol_store::accounts::CreateOrderV2 {
             owner, receiver: owner, store: self.store, market: m.market, user: self.user_pda(&owner), order, position: Some(self.position_pda(&owner, m, side)),
             initial_collateral_token: Some(ctoken), final_output_token: ctoken, long_token: Some(m.long), short_token: Some(m.short),
@@ -118,12 +125,18 @@ impl W {
 
     /// market decrease order: withdraw `collateral` of the collateral token and reduce the size by `size` USD
     pub fn create_decrease(&self, db: &mut Db, m: &MarketKeys, owner: Pubkey, nonce: [u8; 32], side: Side, collateral: u64, size: u128) -> std::result::Result<(), TxError> {
+        self.create_decrease_with(db, m, owner, nonce, side, collateral, size, None)
+    }
+
+    #[allow(clippy::too_many_arguments)]
+    pub fn create_decrease_with(&self, db: &mut Db, m: &MarketKeys, owner: Pubkey, nonce: [u8; 32], side: Side, collateral: u64, size: u128, acceptable_price: Option<u128>) -> std::result::Result<(), TxError> {
         let order = self.order_pda(&owner, &nonce);
         let ctoken = if side.collateral_long { m.long } else { m.short };
         for mint in [m.long, m.short] {
             self.ensure_ata(db, &order, &mint);
         }
-        let params = Self::order_params(OrderKind::MarketDecrease, side, collateral, size);
+        let mut params = Self::order_params(OrderKind::MarketDecrease, side, collateral, size);
+        params.acceptable_price = acceptable_price;
         let accounts = gmsol_store::accounts::CreateOrderV2 {
             owner, receiver: owner, store: self.store, market: m.market, user: self.user_pda(&owner), order, position: Some(self.position_pda(&owner, m, side)),
             initial_collateral_token: None, final_output_token: ctoken, long_token: Some(m.long), short_token: Some(m.short),
@@ -157,6 +170,50 @@ impl W {
             event_authority: self.event_authority, program: self.pid,
         };
         let mut i = ix(self.pid, accounts, gmsol_store::instruction::ExecuteDecreaseOrderV2 { recent_timestamp: ts, execution_fee: 5_000, throw_on_execution_error: throw });
+        i.accounts.extend(self.feeds_for(m));
+        process(db, &i, &[by])
+    }
+
+    /// close an order (`increase`: whether it was created by `create_increase`, else by `create_decrease`)
+    pub fn close_order(&self, db: &mut Db, m: &MarketKeys, owner: Pubkey, nonce: [u8; 32], side: Side, increase: bool, by: Pubkey) -> std::result::Result<(), TxError> {
+        let order = self.order_pda(&owner, &nonce);
+        let ctoken = if side.collateral_long { m.long } else { m.short };
+        for mint in [m.long, m.short] {
+            self.ensure_ata(db, &owner, &mint);
+        }
+        let accounts = gmsol_store::accounts::CloseOrderV2 {
+            executor: by, store: self.store, store_wallet: self.store_wallet, owner, receiver: owner, rent_receiver: owner, user: self.user_pda(&owner), referrer_user: None, order,
+            initial_collateral_token: increase.then_some(ctoken), final_output_token: (!increase).then_some(ctoken), long_token: Some(m.long), short_token: Some(m.short),
+            initial_collateral_token_escrow: increase.then(|| ata(&order, &ctoken)), final_output_token_escrow: (!increase).then(|| ata(&order, &ctoken)), long_token_escrow: Some(ata(&order, &m.long)), short_token_escrow: Some(ata(&order, &m.short)),
+            initial_collateral_token_ata: increase.then(|| ata(&owner, &ctoken)), final_output_token_ata: (!increase).then(|| ata(&owner, &ctoken)), long_token_ata: Some(ata(&owner, &m.long)), short_token_ata: Some(ata(&owner, &m.short)),
+            system_program: sys(), token_program: spl_token::ID, associated_token_program: spl_associated_token_account::ID,
+            callback_authority: None, callback_program: None, callback_shared_data_account: None, callback_partitioned_data_account: None,
+            event_authority: self.event_authority, program: self.pid,
+        };
+        process(db, &ix(self.pid, accounts, gmsol_store::instruction::CloseOrderV2 { reason: "done".into() }), &[by])
+    }
+
+    /// liquidate the position of `owner` (keeper instruction; the order account belongs to the keeper)
+    pub fn liquidate(&self, db: &mut Db, m: &MarketKeys, owner: Pubkey, nonce: [u8; 32], side: Side, by: Pubkey) -> std::result::Result<(), TxError> {
+        let order = self.order_pda(&by, &nonce);
+        let (ts, _) = crate::svm::clock();
+        let holding = *db.pod::<Store>(&self.store).expect("store").holding();
+        let pnl_token = if side.is_long { m.long } else { m.short };
+        for mint in [m.long, m.short] {
+            self.ensure_ata(db, &order, &mint);
+        }
+        let cl = self.use_claimable(db, m.long, owner, ts, by)?;
+        let cs = self.use_claimable(db, m.short, owner, ts, by)?;
+        let ch = self.use_claimable(db, pnl_token, holding, ts, by)?;
+        let accounts = gmsol_store::accounts::PositionCut {
+            authority: by, owner, user: self.user_pda(&owner), store: self.store, token_map: self.token_map, oracle: self.oracle, market: m.market, order,
+            position: self.position_pda(&owner, m, side), event: self.event_pda(&by, 0), long_token: m.long, short_token: m.short,
+            long_token_escrow: ata(&order, &m.long), short_token_escrow: ata(&order, &m.short), long_token_vault: self.vault(&m.long), short_token_vault: self.vault(&m.short),
+            claimable_long_token_account_for_user: cl, claimable_short_token_account_for_user: cs, claimable_pnl_token_account_for_holding: ch,
+            system_program: sys(), token_program: spl_token::ID, associated_token_program: spl_associated_token_account::ID, chainlink_program: None,
+            event_authority: self.event_authority, program: self.pid,
+        };
+        let mut i = ix(self.pid, accounts, gmsol_store::instruction::Liquidate { nonce, recent_timestamp: ts, execution_fee: 5_000 });
         i.accounts.extend(self.feeds_for(m));
         process(db, &i, &[by])
     }
